@@ -1,9 +1,177 @@
-(* C21 — placeholder while the tie is being debugged *)
-From TF Require Import Exec Calls CallsProofs.
+(* C21 — Adapters are only called with arguments the adapter contract promises.
+
+   Calls.v lists every adapter call the Exec.v model of execution.rs can make for a query
+   (`calls_of_query`), a schema-lite, the typing discipline of IR queries (`typed_query`, what the
+   frontend is supposed to establish — checked on every generated query by the harness) and the
+   static clauses of the contract (`contract_ok`).
+
+   STATIC clauses (type defined; property/edge defined on it or __typename; coercion target a subtype
+   of the named type; parameters = exactly the declared ones, with valid values): proved for ALL typed
+   queries, any nesting of folds / recursion / coercions.
+   `calls_of_query` is justified against Exec.v extensionally: the interpreter model depends on the
+   graph ONLY through the listed calls (two graphs answering alike on them give the same result).
+   DYNAMIC clause (every non-null active vertex is an instance of the named type): proved for
+   fold-free queries at every stage boundary (`…_partial`); what is missing is stated there.
+
+   Finding (K-recurse-coercion-to-sibling-interface): the hypothesis `typed_query` is NOT established
+   by the frontend for @recurse through sibling interfaces; see C21_sibling_interfaces_witness. *)
+From TF Require Import Exec Sem SimComp Calls CallsProofs.
 Local Open Scope string_scope.
 Local Open Scope list_scope.
 
+(* ---- static clauses ---- *)
 Theorem C21_calls_respect_contract :
   forall S q, typed_query S q = true -> Forall (fun c => contract_ok S c = true) (calls_of_query q).
 Proof. exact calls_respect_contract. Qed.
 Print Assumptions C21_calls_respect_contract.
+
+(* the calls made while interpret_ir builds the pipeline are among them *)
+Theorem C21_static_calls_are_calls :
+  forall q, incl (static_calls_of_query q) (calls_of_query q).
+Proof. exact static_calls_incl. Qed.
+Print Assumptions C21_static_calls_are_calls.
+
+(* ---- calls_of_query lists every call of the model: a stage depends on the graph only through its
+        listed calls (same rows, same panics) ---- *)
+Theorem C21_enter_vertex_only_makes_listed_calls :
+  forall re args g g' vs ss v cs,
+    agree_on (enter_calls vs v) g g' ->
+    enter_vertex re g args vs ss v cs = enter_vertex re g' args vs ss v cs.
+Proof. exact enter_vertex_agree. Qed.
+Print Assumptions C21_enter_vertex_only_makes_listed_calls.
+
+Theorem C21_expand_edge_only_makes_listed_calls :
+  forall re args g g' vs ss e cs,
+    agree_on (edge_calls vs e) g g' ->
+    expand_edge re g args vs ss e cs = expand_edge re g' args vs ss e cs.
+Proof. exact expand_edge_agree. Qed.
+Print Assumptions C21_expand_edge_only_makes_listed_calls.
+
+Theorem C21_fold_only_makes_listed_calls :
+  forall re args g g' vs ss h sub sub_calls sc sc' cs,
+    agree_on (fold_calls true vs h sub sub_calls) g g' ->
+    (agree_on sub_calls g g' -> forall l, sc l = sc' l) ->
+    fold_step re g args vs ss h sub sc cs = fold_step re g' args vs ss h sub sc' cs.
+Proof. exact fold_step_agree. Qed.
+Print Assumptions C21_fold_only_makes_listed_calls.
+
+Theorem C21_interpreter_only_makes_listed_calls :
+  forall re args g g' q,
+    agree_on (calls_of_query q) g g' -> interpret re g args q = interpret re g' args q.
+Proof. exact interpret_agree. Qed.
+Print Assumptions C21_interpreter_only_makes_listed_calls.
+
+(* ---- dynamic clause, PARTIAL ----
+   Full statement (not proved): for every typed query, conforming graph and every call the engine
+   makes, every `Some` active vertex of every context flowing into the call is an instance of the
+   call's type_name.
+   Proved: for FOLD-FREE typed queries (plain / @optional / @recurse edges, coercions, filters, tags),
+   after ANY prefix of the root component's steps every vertex recorded in every context is an
+   instance of its IR vertex' type — via the specification (assignments only contain vertices
+   produced by g_starts / g_nbrs at the declared destination, narrowed by coercions; recursion by
+   induction on the depth, through the implicit-coercion gate) and the C01 simulation.  These are the
+   vertices made active for the next neighbour call (corollary), for tag computations and for the
+   output calls.
+   Missing: candidates DURING a vertex' filter stage (active = a neighbour that passed the coercion
+   but is not recorded yet), contexts inside the @recurse rounds (later hops at `recursing_from`), and
+   everything inside @fold.  Those are covered only by the run-time ContractAdapter. *)
+Theorem C21_recorded_vertices_typed_partial :
+  forall S inst re g args,
+    conforms S inst g -> ty_indep g ->
+    forall q d root vs ss outs rv pre post cs0 cs,
+      q_comp q = mkComp root vs ss outs ->
+      find_decl (q_root_name q) (s_entries S) = Some d ->
+      typed_query S q = true ->
+      edges_only ss = true -> ss = pre ++ post ->
+      find_vertex vs root = Some rv ->
+      enter_vertex re g args vs ss rv
+        (map (fun v => ctx_new (Some v)) (g_starts g (q_root_name q) (q_root_params q))) = Ok cs0 ->
+      exec_steps re g args vs ss pre cs0 = Ok cs ->
+      Forall (ctx_typed inst vs) cs.
+Proof. exact recorded_vertices_typed_partial. Qed.
+Print Assumptions C21_recorded_vertices_typed_partial.
+
+Theorem C21_neighbor_call_active_vertices_typed_partial :
+  forall S inst re g args,
+    conforms S inst g -> ty_indep g ->
+    forall q d root vs ss outs rv pre e post from cs0 cs cs1,
+      q_comp q = mkComp root vs ss outs ->
+      find_decl (q_root_name q) (s_entries S) = Some d ->
+      typed_query S q = true ->
+      edges_only ss = true -> ss = pre ++ SEdge e :: post ->
+      find_vertex vs root = Some rv ->
+      find_vertex vs (e_from e) = Some from ->
+      enter_vertex re g args vs ss rv
+        (map (fun v => ctx_new (Some v)) (g_starts g (q_root_name q) (q_root_params q))) = Ok cs0 ->
+      exec_steps re g args vs ss pre cs0 = Ok cs ->
+      mapM (fun c => activate_vertex c (e_from e)) cs = Ok cs1 ->
+      Forall (fun c => forall v, active c = Some v -> inst v (v_type from)) cs1.
+Proof. exact neighbor_call_active_vertices_typed_partial. Qed.
+Print Assumptions C21_neighbor_call_active_vertices_typed_partial.
+
+(* finite datasets: a decidable check implies `conforms` (so the hypothesis is satisfiable, below) *)
+Theorem C21_dataset_conforms_sound :
+  forall S d, dataset_conforms S d = true -> conforms S (inst_of d) (graph_of_dataset d).
+Proof. exact dataset_conforms_sound. Qed.
+Print Assumptions C21_dataset_conforms_sound.
+
+(* ---- non-vacuity: the harness' world schema and a query produced by the real frontend:
+        coercion at the root, @recurse(depth: 2) with the implicit coercion Thing -> Item (Leaf.up leads
+        to Thing, which has no `up`), a parameter filled in from its schema default, a @fold with
+        filters and an output ---- *)
+Definition c21_ws : schema := (mkSchema ["Thing"; "Item"; "Box"; "Leaf"; "Gadget"] [("Thing", ["Thing"; "Item"; "Box"; "Leaf"; "Gadget"]); ("Item", ["Item"; "Box"; "Leaf"]); ("Box", ["Box"]); ("Leaf", ["Leaf"]); ("Gadget", ["Gadget"])] [("Thing", [("id", (mkTy "Int" 1%N)); ("name", (mkTy "String" 0%N)); ("score", (mkTy "Int" 0%N)); ("ratio", (mkTy "Float" 0%N)); ("flag", (mkTy "Boolean" 0%N)); ("tags", (mkTy "String" 6%N)); ("nums", (mkTy "Int" 3%N))]); ("Item", [("id", (mkTy "Int" 1%N)); ("name", (mkTy "String" 0%N)); ("score", (mkTy "Int" 0%N)); ("ratio", (mkTy "Float" 0%N)); ("flag", (mkTy "Boolean" 0%N)); ("tags", (mkTy "String" 6%N)); ("nums", (mkTy "Int" 3%N)); ("weight", (mkTy "Int" 1%N)); ("label", (mkTy "String" 1%N))]); ("Box", [("id", (mkTy "Int" 1%N)); ("name", (mkTy "String" 0%N)); ("score", (mkTy "Int" 0%N)); ("ratio", (mkTy "Float" 0%N)); ("flag", (mkTy "Boolean" 0%N)); ("tags", (mkTy "String" 6%N)); ("nums", (mkTy "Int" 3%N)); ("weight", (mkTy "Int" 1%N)); ("label", (mkTy "String" 1%N)); ("capacity", (mkTy "Int" 0%N))]); ("Leaf", [("id", (mkTy "Int" 1%N)); ("name", (mkTy "String" 0%N)); ("score", (mkTy "Int" 0%N)); ("ratio", (mkTy "Float" 0%N)); ("flag", (mkTy "Boolean" 0%N)); ("tags", (mkTy "String" 6%N)); ("nums", (mkTy "Int" 3%N)); ("weight", (mkTy "Int" 1%N)); ("label", (mkTy "String" 1%N)); ("leafy", (mkTy "String" 0%N))]); ("Gadget", [("id", (mkTy "Int" 1%N)); ("name", (mkTy "String" 0%N)); ("score", (mkTy "Int" 0%N)); ("ratio", (mkTy "Float" 0%N)); ("flag", (mkTy "Boolean" 0%N)); ("tags", (mkTy "String" 6%N)); ("nums", (mkTy "Int" 3%N)); ("power", (mkTy "Int" 0%N))])] [("Thing", [(mkED "next" "Thing" [("lo", (mkTy "Int" 0%N)); ("hi", (mkTy "Int" 0%N))]); (mkED "link" "Thing" []); (mkED "parent" "Thing" [])]); ("Item", [(mkED "next" "Thing" [("lo", (mkTy "Int" 0%N)); ("hi", (mkTy "Int" 0%N))]); (mkED "link" "Thing" []); (mkED "parent" "Thing" []); (mkED "peer" "Item" []); (mkED "up" "Thing" [("hi", (mkTy "Int" 1%N))])]); ("Box", [(mkED "next" "Thing" [("lo", (mkTy "Int" 0%N)); ("hi", (mkTy "Int" 0%N))]); (mkED "link" "Thing" []); (mkED "parent" "Thing" []); (mkED "peer" "Box" []); (mkED "up" "Thing" [("hi", (mkTy "Int" 1%N))]); (mkED "contains" "Item" []); (mkED "inner" "Box" [("lo", (mkTy "Int" 0%N))])]); ("Leaf", [(mkED "next" "Thing" [("lo", (mkTy "Int" 0%N)); ("hi", (mkTy "Int" 0%N))]); (mkED "link" "Thing" []); (mkED "parent" "Thing" []); (mkED "peer" "Item" []); (mkED "up" "Thing" [("hi", (mkTy "Int" 1%N))])]); ("Gadget", [(mkED "next" "Thing" [("lo", (mkTy "Int" 0%N)); ("hi", (mkTy "Int" 0%N))]); (mkED "link" "Thing" []); (mkED "parent" "Thing" []); (mkED "gears" "Gadget" [])])] [(mkED "Thing" "Thing" [("lo", (mkTy "Int" 0%N)); ("hi", (mkTy "Int" 0%N))]); (mkED "Item" "Item" [("lo", (mkTy "Int" 0%N)); ("hi", (mkTy "Int" 0%N))]); (mkED "Box" "Box" []); (mkED "Leaf" "Leaf" [("hi", (mkTy "Int" 1%N))]); (mkED "Gadget" "Gadget" [])]).
+Definition c21_rq : raw_query := (mkRQ "Item" [("hi", Null); ("lo", (I64 0%Z))] (RComp 1%N [(mkV 1%N "Leaf" (Some "Item") []); (mkV 2%N "Thing" None [])] [(mkE 1%N 1%N 2%N "up" [("hi", (I64 500%Z))] false (Some (mkRec 2%N (Some "Item"))))] [(RFold (mkFH 2%N 1%N 3%N "link" [] [] [] []) (RComp 3%N [(mkV 3%N "Thing" None [(mkVF Equals "name" (mkTy "String" 0%N) (Some (AVar "v1" (mkTy "String" 0%N)))); (mkVF NotHasPrefix "name" (mkTy "String" 0%N) (Some (AVar "v2" (mkTy "String" 1%N))))])] [] [] [("o3", (mkCF 3%N "name" (mkTy "String" 0%N)))]))] [("o1", (mkCF 1%N "score" (mkTy "Int" 0%N))); ("o2", (mkCF 2%N "name" (mkTy "String" 0%N)))]) [("v1", (mkTy "String" 0%N)); ("v2", (mkTy "String" 1%N))]).
+
+Example C21_nonvacuous :
+  match lower_query c21_rq with
+  | Ok q => typed_query c21_ws q = true /\
+            forallb (contract_ok c21_ws) (calls_of_query q) = true /\
+            List.length (calls_of_query q) = 11%nat /\
+            existsb (fun c => String.eqb (show_call c) "C@1:Thing>Item") (calls_of_query q) = true /\
+            existsb (fun c => String.eqb (show_call c) "N@1/1:Item.up(hi=i500)") (calls_of_query q) = true
+  | Panic _ => False
+  end.
+Proof. vm_compute. repeat split; reflexivity. Qed.
+Print Assumptions C21_nonvacuous.
+
+(* the hypotheses of the dynamic theorem are satisfiable: a dataset that conforms to the world schema,
+   a fold-free typed query with recursion and coercions, and a run that returns rows *)
+Definition c21_ds : dataset :=
+  mkDS [(1%N, "Leaf"); (2%N, "Box"); (3%N, "Gadget")]
+       [(1%N, [("id", I64 1%Z); ("score", I64 5%Z)]); (2%N, [("id", I64 2%Z); ("name", Str "b")]); (3%N, [("id", I64 3%Z)])]
+       [(1%N, [("link", [3%N]); ("up", [2%N; 3%N])]); (2%N, [("up", [1%N])])]
+       [("Item", [1%N; 2%N])]
+       [("Thing", ["Box"; "Leaf"; "Gadget"]); ("Item", ["Box"; "Leaf"]); ("Box", ["Box"]); ("Leaf", ["Leaf"]); ("Gadget", ["Gadget"])].
+Definition c21_rq_ff : raw_query := (mkRQ "Item" [("hi", Null); ("lo", (I64 0%Z))] (RComp 1%N [(mkV 1%N "Leaf" (Some "Item") []); (mkV 2%N "Thing" None [])] [(mkE 1%N 1%N 2%N "up" [("hi", (I64 500%Z))] false (Some (mkRec 2%N (Some "Item"))))] [] [("o1", (mkCF 1%N "score" (mkTy "Int" 0%N))); ("o2", (mkCF 2%N "name" (mkTy "String" 0%N)))]) []).
+
+Example C21_dynamic_hypotheses_satisfiable :
+  dataset_conforms c21_ws c21_ds = true /\
+  match lower_query c21_rq_ff with
+  | Ok q => typed_query c21_ws q = true /\ edges_only (c_steps (q_comp q)) = true /\
+            match interpret (re_table [] []) (graph_of_dataset c21_ds) [] q with
+            | Ok rows => List.length rows = 4%nat
+            | Panic _ => False
+            end
+  | Panic _ => False
+  end.
+Proof. vm_compute. repeat split; reflexivity. Qed.
+Print Assumptions C21_dynamic_hypotheses_satisfiable.
+
+(* ---- the finding: sibling interfaces.  `A implements X & D`, edge `e: [D!]` declared on X only.
+        The IR below is what the real frontend produces for `{ A { e @recurse(depth: 2) { did @output } } }`
+        (tied on every run): coerce_to = X, which is not a subtype of D.  The model makes the call
+        resolve_coercion(D -> X), which breaks the contract; consistently the query is not typed, i.e.
+        the frontend does not establish the hypothesis of C21_calls_respect_contract here. ---- *)
+Definition c21_sib_schema : schema := (mkSchema ["X"; "D"; "A"; "B"] [("X", ["X"; "A"]); ("D", ["D"; "A"; "B"]); ("A", ["A"]); ("B", ["B"])] [("X", [("xid", (mkTy "Int" 1%N))]); ("D", [("did", (mkTy "Int" 1%N))]); ("A", [("xid", (mkTy "Int" 1%N)); ("did", (mkTy "Int" 1%N))]); ("B", [("did", (mkTy "Int" 1%N))])] [("X", [(mkED "e" "D" [])]); ("D", []); ("A", [(mkED "e" "D" [])]); ("B", [])] [(mkED "A" "A" [])]).
+Definition c21_sib_rq : raw_query := (mkRQ "A" [] (RComp 1%N [(mkV 1%N "A" None []); (mkV 2%N "D" None [])] [(mkE 1%N 1%N 2%N "e" [] false (Some (mkRec 2%N (Some "X"))))] [] [("did", (mkCF 2%N "did" (mkTy "Int" 1%N)))]) []).
+
+Example C21_sibling_interfaces_witness :
+  match lower_query c21_sib_rq with
+  | Ok q => typed_query c21_sib_schema q = false /\
+            In (coerce_call "D" "X" 1%N) (calls_of_query q) /\
+            contract_ok c21_sib_schema (coerce_call "D" "X" 1%N) = false /\
+            subtype_of c21_sib_schema "X" "D" = false
+  | Panic _ => False
+  end.
+Proof. vm_compute. repeat split; try reflexivity. right. right. left. reflexivity. Qed.
+Print Assumptions C21_sibling_interfaces_witness.
